@@ -345,6 +345,8 @@ impl Model {
             Op::Stray { .. } => {}
             Op::Watched { events } => {
                 for (uri, typ) in events {
+                    // one file, whatever the spelling of its URI
+                    let uri = &uri.replace("%61", "a").replace("%62", "b");
                     let mut cur = self.get(uri);
                     // Files the client maintains are not reloaded - unless the server has
                     // (possibly) forgotten the document after an inapplicable edit, in which
@@ -573,7 +575,8 @@ fn gen_sequence(r: &mut Rng, env: &Env, hostile: bool) -> Vec<Op> {
         } else if k < 13 {
             ops.push(Op::Save { uri });
         } else if k < 14 && hostile {
-            let targets = [p("src/a.gleam"), p("src/b.gleam"), p("src/gone.gleam"), p("src/adir.gleam"), p("src/fifo.gleam"), p("gleam.toml"), "untitled:x".to_string()];
+            // `src/%61.gleam` is another spelling of `src/a.gleam`: a watcher that percent-encodes differently than the editor
+            let targets = [p("src/a.gleam"), p("src/b.gleam"), p("src/gone.gleam"), p("src/adir.gleam"), p("src/fifo.gleam"), p("gleam.toml"), "untitled:x".to_string(), p("src/%61.gleam"), p("src/%62.gleam")];
             let ne = r.range(1, 3);
             // FileChangeType is 1 (created), 2 (changed) or 3 (deleted); a client may send anything
             let events = (0..ne).map(|_| (targets[r.below(targets.len())].clone(), if r.chance(1, 5) { *r.pick(&[0u32, 4, 7, 2147483647]) } else { r.range(1, 3) as u32 })).collect();
@@ -1704,7 +1707,7 @@ fn run_c17(args: &Args) -> Report {
             if devdep && p.key == "app" {
                 // a package that is ONLY a dev-dependency (the test runner of practically every project): fetched
                 // into build/packages like the others, external like the others
-                toml.push_str("\n[dev-dependencies]\ndevonly = \"~> 1.0\"\n");
+                toml.push_str("nameless = \"~> 1.0\"\n\n[dev-dependencies]\ndevonly = \"~> 1.0\"\n");
                 let ddir = p.dir.join("build/packages/devonly");
                 std::fs::create_dir_all(ddir.join("src")).unwrap();
                 std::fs::write(ddir.join("gleam.toml"), "name = \"devonly\"\nversion = \"1.0.0\"\n\n[dependencies]\n").unwrap();
@@ -1714,6 +1717,11 @@ fn run_c17(args: &Args) -> Report {
                 std::fs::create_dir_all(sdir.join("src")).unwrap();
                 std::fs::write(sdir.join("gleam.toml"), "name = \"stale\"\nversion = \"1.0.0\"\n\n[dependencies]\n").unwrap();
                 std::fs::write(sdir.join("src/stale.gleam"), DEVONLY_TEXT).unwrap();
+                // ... and a package whose manifest has lost its name (listed by the root all the same)
+                let ndir = p.dir.join("build/packages/nameless");
+                std::fs::create_dir_all(ndir.join("src")).unwrap();
+                std::fs::write(ndir.join("gleam.toml"), "version = \"1.0.0\"\n\n[dependencies]\n").unwrap();
+                std::fs::write(ndir.join("src/nameless.gleam"), DEVONLY_TEXT).unwrap();
             }
             std::fs::write(p.dir.join("gleam.toml"), toml).unwrap();
             for (m, dirname) in &p.modules {
@@ -2038,7 +2046,7 @@ fn run_c17(args: &Args) -> Report {
             }
         }
         // the dev-dependency and the stale package: a document inside them is navigable, never editable
-        for (pkg_dir, what) in [("devonly", "dev-dependency"), ("stale", "unlisted-package")] {
+        for (pkg_dir, what) in [("devonly", "dev-dependency"), ("stale", "unlisted-package"), ("nameless", "package-without-a-name")] {
             if !devdep {
                 break;
             }
